@@ -12,19 +12,26 @@ use std::time::Duration;
 
 pub const META: Meta = Meta {
     level: "exploration",
-    rule: "tables = every subset of the crafted key alphabet (distances from the local key: 1 [bucket 0], 2, 3 [bucket 1], 2^255, 2^255+1, 2^255+2^254 [bucket 255]; thorough adds 2^7, 2^7+5 [bucket 7], 2^256-1 [bucket 255]) inserted with alternating connected/disconnected status into a real KBucketsTable (bucket_size 20, and 3 (quick) / 4 (thorough) = bucket 255 exactly full when all its alphabet keys are stored); local key sha256(peer0) (thorough: also 0 and 2^256-1); targets = local key, every alphabet key, and local ^ d for d in {4,5,2^8,2^8+1,2^256-2,2^256-1,2^255+3,2^255+2} (thorough adds 6,7,2^255+2^100,2^255+2^100+1,2^254, sha256(peer1), sha256(peer2), sha256(peer3)); both closest_keys() and closest(). Non-trivial = distinct (local, bucket_size, subset, target, api) cases with at least 2 stored keys.",
+    rule: "tables = every subset of the crafted key alphabet (distances from the local key: 1 [bucket 0], 2, 3 [bucket 1], 2^255, 2^255+1, 2^255+2^254 [bucket 255]; thorough adds 2^7, 2^7+5 [bucket 7], 2^256-1 [bucket 255]) inserted with alternating connected/disconnected status into a real KBucketsTable; bucket-size dimension: 20 (= K_VALUE), 3/4 (bucket 255 exactly full), 1 and 2 (subsets that do not fit are skipped), and sizes above K_VALUE: 23/24 with 20 further fixed keys in bucket 255 inserted before resp. after the subset (bucket 255 holds up to 23/24 > K_VALUE entries), 21 with 19 fixed keys, thorough also 44 with 40 fixed keys; local key sha256(peer0) (thorough: also 0 and 2^256-1); targets = local key, every alphabet key, and local ^ d for d in {4,5,2^8,2^8+1,2^256-2,2^256-1,2^255+3,2^255+2} (thorough adds 6,7,2^255+2^100,2^255+2^100+1,2^254, sha256(peer1), sha256(peer2), sha256(peer3)); both closest_keys() and closest(). Non-trivial = distinct (local, bucket_size, subset, target, api) cases with at least 2 stored keys.",
     explanation: "Complete enumeration (E3) of subsets x targets; every output is compared with the stored key set (exactly once each) and checked for non-decreasing XOR distance computed independently.",
     assumptions: &["crafted key alphabet with buckets 0, 1, (7,) 255 occupied and >= 3 keys sharing bucket 255 (small-scope)", "no pending entries are involved (C37 covers pending application)"],
 };
 
 /// guard against a never-ending iterator (far above any table size here)
-const LIMIT: usize = 64;
+const LIMIT: usize = 128;
 
 struct Cfg {
     local_name: &'static str,
     local: B,
     bucket_size: usize,
+    /// number of extra keys put into bucket 255 (distances 2^255 + (j+1)*2^16), and whether
+    /// they are inserted before (true) or after (false) the subset's keys
+    prefill: usize,
+    prefill_first: bool,
 }
+
+/// the 20 protocol-level K_VALUE; bucket sizes above it must not lose entries
+const K: usize = 20;
 
 fn alphabet(thorough: bool) -> Vec<(String, B)> {
     let p255 = kx::pow2(255);
@@ -79,12 +86,39 @@ fn extra_targets(thorough: bool, local: &B) -> Vec<(String, B)> {
 
 fn cfgs(thorough: bool) -> Vec<Cfg> {
     let h0 = kx::key_bytes(&kx::peer_keybytes(0));
-    let mut v = vec![Cfg { local_name: "H(peer0)", local: h0, bucket_size: 20 }, Cfg { local_name: "H(peer0)", local: h0, bucket_size: if thorough { 4 } else { 3 } }];
+    let c = |local_name: &'static str, local: B, bucket_size: usize, prefill: usize, prefill_first: bool| Cfg { local_name, local, bucket_size, prefill, prefill_first };
+    // number of alphabet keys living in bucket 255
+    let in255 = alphabet(thorough).iter().filter(|a| kx::high_bit(&a.1) == Some(255)).count();
+    let mut v = vec![
+        c("H(peer0)", h0, K, 0, true),
+        // bucket 255 exactly full when all its alphabet keys are stored
+        c("H(peer0)", h0, in255, 0, true),
+        // small bucket sizes: subsets that do not fit are skipped (counted)
+        c("H(peer0)", h0, 1, 0, true),
+        c("H(peer0)", h0, 2, 0, true),
+        // bucket size above K_VALUE with bucket 255 filled beyond 20 entries: 20 fixed keys +
+        // every subset of the alphabet keys of bucket 255, inserted before / after them
+        c("H(peer0)", h0, K + in255, K, true),
+        c("H(peer0)", h0, K + in255, K, false),
+        c("H(peer0)", h0, K + 1, K - 1, true),
+    ];
     if thorough {
-        v.push(Cfg { local_name: "zero", local: kx::ZERO, bucket_size: 20 });
-        v.push(Cfg { local_name: "ones", local: kx::MAX, bucket_size: 20 });
+        v.push(c("zero", kx::ZERO, K, 0, true));
+        v.push(c("ones", kx::MAX, K, 0, true));
+        v.push(c("zero", kx::ZERO, K + in255, K, false));
+        v.push(c("H(peer0)", h0, 2 * K + in255, 2 * K, true));
     }
     v
+}
+
+/// distance (from the local key) of prefill key j: 2^255 + (j+1) * 2^16 (bucket 255, disjoint
+/// from the alphabet)
+fn prefill_distance(j: usize) -> B {
+    let mut b = kx::pow2(255);
+    let v = (j as u32 + 1) << 16;
+    b[28] = (v >> 24) as u8;
+    b[29] = (v >> 16) as u8;
+    b
 }
 
 struct Case<'a> {
@@ -111,13 +145,29 @@ fn run_case(c: &Case) -> Result<Vec<String>, String> {
     let local = kx::make_key(&c.cfg.local)?;
     let mut t = Table::new(local, c.cfg.bucket_size, Duration::from_secs(1));
     let mut stored: Vec<(String, B, KeyBytes)> = Vec::new();
+    // insertion plan: (name, distance, connected?)
+    let mut plan: Vec<(String, B, bool)> = Vec::new();
     for (i, (n, d)) in c.alpha.iter().enumerate() {
-        if c.subset & (1 << i) == 0 {
-            continue;
+        if c.subset & (1 << i) != 0 {
+            plan.push((n.clone(), *d, i % 2 == 0));
         }
+    }
+    let pre: Vec<(String, B, bool)> = (0..c.cfg.prefill).map(|j| (format!("p{j}"), prefill_distance(j), j % 3 != 0)).collect();
+    if c.cfg.prefill_first {
+        plan.splice(0..0, pre);
+    } else {
+        plan.extend(pre);
+    }
+    // subsets that do not fit the configured bucket size are not a case of this configuration
+    for b in 0..256usize {
+        if plan.iter().filter(|p| kx::high_bit(&p.1) == Some(b)).count() > c.cfg.bucket_size {
+            return Ok(vec!["SKIP".into()]);
+        }
+    }
+    for (n, d, conn) in &plan {
         let kbts = kx::xor(&c.cfg.local, d);
         let k = kx::make_key(&kbts)?;
-        let st = if i % 2 == 0 { NodeStatus::Connected } else { NodeStatus::Disconnected };
+        let st = if *conn { NodeStatus::Connected } else { NodeStatus::Disconnected };
         match t.insert(&k, st) {
             Ok(kb::Inserted::Inserted) => stored.push((n.clone(), kbts, k)),
             r => return Err(format!("setup: insert of key d={n} answered {r:?}")),
@@ -139,7 +189,7 @@ fn run_case(c: &Case) -> Result<Vec<String>, String> {
     for (api, out) in outs {
         let names: Vec<String> = out.iter().map(name_of).collect();
         let order = kb::closest_buckets_order(kx::dist_of(td), 6);
-        let ctx = format!("local={} target=local^{tn} stored(d)={:?} output(d)={names:?}; bucket visiting order starts {:?}", c.cfg.local_name, stored.iter().map(|s| &s.0).collect::<Vec<_>>(), order);
+        let ctx = format!("local={} bucket_size={} target=local^{tn} stored(d)={:?} output(d)={names:?}; bucket visiting order starts {:?}", c.cfg.local_name, c.cfg.bucket_size, stored.iter().map(|s| &s.0).collect::<Vec<_>>(), order);
         // (1) each stored key exactly once
         let bytes: Vec<B> = out.iter().map(kx::key_bytes).collect();
         for b in &bytes {
@@ -166,10 +216,10 @@ fn run_case(c: &Case) -> Result<Vec<String>, String> {
     // closest() must also report the status each key was inserted with
     for (k, st) in t.clone().closest(&target, LIMIT) {
         let b = kx::key_bytes(&k);
-        if let Some(i) = c.alpha.iter().position(|a| kx::xor(&c.cfg.local, &a.1) == b) {
-            let want = if i % 2 == 0 { NodeStatus::Connected } else { NodeStatus::Disconnected };
+        if let Some(p) = plan.iter().find(|p| kx::xor(&c.cfg.local, &p.1) == b) {
+            let want = if p.2 { NodeStatus::Connected } else { NodeStatus::Disconnected };
             if st != want {
-                viols.push(format!("closest: wrong status reported :: key d={} {st:?} expected {want:?}", c.alpha[i].0));
+                viols.push(format!("closest: wrong status reported :: key d={} {st:?} expected {want:?}", p.0));
             }
         }
     }
@@ -204,7 +254,7 @@ pub fn run(ctx: &Ctx) -> Outcome {
         let c = Case { cfg: &cfgs[ci], alpha: &alpha, targets: &targets, subset: case["subset"].as_u64().unwrap_or(0), target: case["target"].as_u64().unwrap_or(0) as usize };
         match mc::catch(|| run_case(&c)) {
             Ok(Ok(v)) => {
-                for m in v {
+                for m in v.into_iter().filter(|m| m != "SKIP") {
                     out.violation(mc::bfs::signature_of(&m), m, case.clone());
                 }
             }
@@ -216,14 +266,27 @@ pub fn run(ctx: &Ctx) -> Outcome {
     let mut classes = std::collections::BTreeMap::<&'static str, u64>::new();
     let mut b0_stored_cases = 0u64;
     let mut multi_in_bucket = 0u64;
+    let (mut skipped, mut over_k_cases, mut small_bucket_cases) = (0u64, 0u64, 0u64);
     for (ci, cfg) in cfgs.iter().enumerate() {
         let targets = mk_targets(cfg);
         out.count("targets_per_table", targets.len() as u64);
         for subset in mc::enumerate::subsets(alpha.len()) {
             for ti in 0..targets.len() {
-                out.evaluations += 1;
                 let c = Case { cfg, alpha: &alpha, targets: &targets, subset, target: ti };
-                match mc::catch(|| run_case(&c)) {
+                let r = mc::catch(|| run_case(&c));
+                if matches!(&r, Ok(Ok(v)) if v.len() == 1 && v[0] == "SKIP") {
+                    skipped += 1;
+                    continue;
+                }
+                out.evaluations += 1;
+                let in255 = alpha.iter().enumerate().filter(|(i, a)| subset & (1 << i) != 0 && kx::high_bit(&a.1) == Some(255)).count() + cfg.prefill;
+                if in255 > K {
+                    over_k_cases += 1;
+                }
+                if cfg.bucket_size <= 2 && subset != 0 {
+                    small_bucket_cases += 1;
+                }
+                match r {
                     Ok(Ok(v)) => {
                         for m in v {
                             out.violation(mc::bfs::signature_of(&m), m, case_json(thorough, ci, subset, ti));
@@ -253,6 +316,12 @@ pub fn run(ctx: &Ctx) -> Outcome {
     }
     out.count("cases_with_bucket0_key_stored", b0_stored_cases);
     out.count("cases_with_3_keys_in_bucket_255", multi_in_bucket);
+    out.count("cases_with_more_than_K_VALUE_entries_in_a_bucket", over_k_cases);
+    out.count("cases_with_bucket_size_1_or_2", small_bucket_cases);
+    out.count("subsets_not_fitting_the_bucket_size_skipped", skipped);
+    if over_k_cases == 0 || small_bucket_cases == 0 {
+        out.machinery(format!("vacuity: cases with a bucket holding more than K_VALUE entries {over_k_cases}, cases with bucket size 1/2 {small_bucket_cases}"));
+    }
     if classes.len() < 3 || b0_stored_cases == 0 || multi_in_bucket == 0 {
         out.machinery(format!("vacuity: target classes {classes:?}, bucket-0 cases {b0_stored_cases}, 3-in-a-bucket cases {multi_in_bucket}"));
     }
